@@ -74,6 +74,9 @@ pub struct FileSystemState { p: core::marker::PhantomData<u8> }
 impl FileSystemState {
     /// the artifact set this state describes
     pub uninterp spec fn describes(&self) -> Seq<ArtifactPathAndContent>;
+    /// `FileSystemState::default()` (derive(Default)): the state of an EMPTY directory
+    #[verifier::external_body]
+    pub fn default() -> (r: FileSystemState) ensures r.describes() == Seq::<ArtifactPathAndContent>::empty() { unimplemented!() }
     /// FileSystemState::from(&[ArtifactPathAndContent]) (verified in unit fs_state)
     #[verifier::external_body]
     pub fn from_artifacts(a: &[ArtifactPathAndContent]) -> (r: FileSystemState) ensures r.describes() == a@ { unimplemented!() }
@@ -131,13 +134,16 @@ pub struct Instant { p: core::marker::PhantomData<u8> }
 //@end
 
 //@fn rel=crates/isograph_compiler/src/batch_compile.rs name=compile vis=pub ret=r serves=C17,C18,C19
-//@rw R4
+//@rw R4 R6b
 //@sub "\.map_err\(Diagnostic::from\)\?" => ".map_err_diag()?" n=*
 //@contract
     ensures
         // C17: generation failed => error reported, remembered state untouched (and, by
         // the preconditions of the planner and of apply, nothing was planned or applied)
-        old(state).db.gen_result() is Err ==> r is Err && final(state).file_system_state == old(state).file_system_state, //@O C17.O-2_failed_generation_leaves_state_untouched
+        old(state).db.gen_result() is Err ==> r is Err, //@O C17.O-2_failed_generation_is_reported
+        // ... and does not forget (or change) what the session knows about the directory: the next
+        // successful compile still writes only what changed
+        old(state).db.gen_result() is Err ==> final(state).file_system_state == old(state).file_system_state, //@O C18.O-9_failed_generation_keeps_the_record_of_the_directory
         // C18: success => the remembered state describes exactly the generated artifacts
         r is Ok ==> old(state).db.gen_result() is Ok && final(state).file_system_state is Some
             && final(state).file_system_state->Some_0.describes() == old(state).db.gen_result()->Ok_0.0, //@O C18.O-5_success_remembers_generated_artifacts
